@@ -200,8 +200,8 @@ class TransferFrameDataField:
 
         self._size = 0
         self.tfdz = tfdz
-        allowed_max_len = USLP_TFDF_MAX_SIZE - self.header_len()
-        if self.len() > allowed_max_len:
+        # The length of the TFDF already includes the TFDF header
+        if self.len() > USLP_TFDF_MAX_SIZE:
             raise ValueError
 
     @property
